@@ -17,6 +17,15 @@ for d, bs in ((vlib.HARNESS, bins), (vlib.HARNESS_TOKIO, tbins)):
         print("BUILD FAILED in", d)
         print("\n".join(l for l in p.stdout.splitlines() if not l.startswith("warning"))[-4000:])
         fail = 1
+# the TLS harness (its own crate: humphrey with feature tls) - prebuilt here so that the first C01 run does not pay for it;
+# a failure is reported but does not fail the setup (the TLS part of C01 is a growth part and cannot fail C01)
+try:
+    sys.path.insert(0, os.path.join(ROOT, "checks"))
+    import c01_tls
+    c01_tls.build_tls(False)
+    c01_tls.build_tls(True)
+except Exception as e:   # noqa
+    print("note: harness-tls not prebuilt:", str(e)[:300])
 for sd in sorted(specs):
     for f in sorted(glob.glob(os.path.join(ROOT, "spec", sd, "*.tla"))):
         ok, out = vlib.sany(f)
